@@ -97,10 +97,12 @@ ConnRef::ConnRef(Router *router, const ConnEnd& src, const ConnEnd& dst,
     m_id = m_router->assignId(id);
     m_route.clear();
 
+    // Register for rerouting before the endpoints are set: without
+    // transactions, setting them routes the connector straight away.
+    m_reroute_flag_ptr = m_router->m_conn_reroute_flags.addConn(this);
+
     // Set endpoint values.
     setEndpoints(src, dst);
-
-    m_reroute_flag_ptr = m_router->m_conn_reroute_flags.addConn(this);
 }
 
 
